@@ -123,4 +123,25 @@ theorem pinned_tree_answered_a_foreign_address :
     determine atCid "@H" "../@V/victim" = none ∧
     determine atCid "@V" "victim" = some ⟨"@V", "victim"⟩ := pinned_not_injective
 
+/-- **an address is self-describing: behind the hash of a manifest only the name recorded in it opens**
+(after the `fix:` commit, finding F52). Whatever the options (short of the local-only refusal, which
+comes first): an address whose path is not the name its root's manifest was created for is refused and
+nothing changes; and the address `Create` returns always passes that test, on the creating instance
+and on any other (`create_then_open_anywhere` above is unchanged). Before the repair
+`/orbitdb/<root>/anything` opened as a database of its own — its own log id, cache and topic — built
+from the manifest of another database. -/
+theorem misnamed_address_is_refused {isCid : String → Bool} {H : String → String → List String → String}
+    (s : OC.St) (addr : String) (o : OC.Opts) (a : Path.Addr) (m : OC.Manifest)
+    (hp : Path.parse isCid addr = some a) (hf : OC.fetch s.net a.root = some m)
+    (hn : OC.named isCid a m = false) (hlo : o.localOnly = false) :
+    OC.«open» isCid H s addr o = (.error .nameMismatch, s) :=
+  OC.open_misnamed_refused s addr o a m hp hf hn hlo
+
+/-- the address `DetermineAddress` gives for a name passes the name test against every manifest that
+records that name -/
+theorem created_address_is_named {isCid : String → Bool} {h name : String} {a : Path.Addr}
+    (hc : isCid h = true) (hh : Path.Seg h) (hd : Path.determine isCid h name = some a)
+    (m : OC.Manifest) (hm : m.name = name) : OC.named isCid a m = true :=
+  OC.named_of_determine hc hh hd m hm
+
 end Orbit.C14
